@@ -128,6 +128,12 @@ def main():
             jobs.append((seq_job, (dual, seq)))
         # the historical shapes: hinted insert, then the local / global best
         jobs.append((seq_job, (dual, ('ins_hint', 'best') + (('best_local',) if dual else ()))))
+        # characteristics re-computed after queueing (stale entries), then a best request
+        for a in ('ins_hint', 'ins_nohint'):
+            for b in (('best', 'best_local') if dual else ('best',)):
+                jobs.append((seq_job, (dual, (a, 'setR', b))))
+                jobs.append((seq_job, (dual, (a, 'refill', 'setR', b))))
+        jobs.append((seq_job, (dual, ('ins_nohint', 'find', 'ins_nohint', 'find'))))
     for maxlen in (1, 2, 3):
         for n in ((2, 4) if quick else (2, 3, 4, 5)):
             jobs.append((bounded_job, (maxlen, n)))
